@@ -1482,9 +1482,15 @@ namespace ipr {
       void visit(const Forall& t) final
       { pp << xpr_type_expr(t); }
 
+      void visit(const Decltype& t) final
+      { pp << xpr_type_expr(t); }
+
       void visit(const Type& t) final
       {
-         // FIXME: Check.
+         // A type that is named only by its own type-id has no other spelling:
+         // printing that name would come back here.
+         if (auto id = util::view<Type_id>(t.name()); id != nullptr and physically_same(id->type_expr(), t))
+            Missing_overrider{ }(t);
          pp << xpr_name(t.name());
       }
 
